@@ -454,6 +454,62 @@ fn tables_strategy() -> impl Strategy<Value = TwoTables> {
     )
 }
 
+// ------------------------------------------------------------------------------------------
+// verifier circuits: the in-circuit STARK/FRI verifier compiled several times for one proof
+// ------------------------------------------------------------------------------------------
+
+#[derive(Clone, Debug, Serialize, Deserialize, Hash)]
+pub struct VCase {
+    pub shape: crate::checks::c14::Shape,
+    pub seed_a: u64,
+    pub seed_b: u64,
+}
+
+pub const RULE_VC: &str = "proof shapes of C14's generator (uni/batch STARK families, lookups, preprocessed columns, \
+ZK, several tables of different heights, FRI parameters, cap heights): a proof of the shape is made natively and the \
+recursive verifier circuit is compiled for it three times in-process (fresh hash seeds per map); oracle: equal digests \
+of the operation list (kinds, slots, constants, executor ids, in order), witness count, public and private rows. \
+Non-trivial = every shape that could be prepared; distinct on the shape classes";
+
+pub fn oracle_vc(c: &VCase) -> Report {
+    // each call proves the shape afresh (proof-of-work grinding may pick another witness, so the
+    // proof VALUES may differ between calls); the circuit is built from the proof's shape only,
+    // so its digest must not
+    let one = || crate::checks::c14::verifier_circuit_digest(&c.shape, c.seed_a, c.seed_b);
+    let first = match one() {
+        Ok(x) => x,
+        Err(e) => return Report::discard(format!("shape not preparable: {}", e.chars().take(60).collect::<String>())),
+    };
+    let mut rep = Report::pass().classes(first.2.clone()).nontrivial(true).key(hash_of(&first.2));
+    for round in 1..3 {
+        match one() {
+            Ok(x) if x.0 == first.0 && x.1 == first.1 => {}
+            Ok(x) => {
+                rep.verdict = crate::fw::Verdict::Fail {
+                    sig: "C18/verifier-circuit:derivation-differs".into(),
+                    msg: format!(
+                        "compilation #{round} of the verifier circuit for one proof shape differs from the first: {} ops digest {:016x} vs {} ops digest {:016x}; classes {:?}",
+                        x.1, x.0, first.1, first.0, first.2
+                    ),
+                };
+                return rep;
+            }
+            Err(e) => {
+                rep.verdict = crate::fw::Verdict::Fail {
+                    sig: "C18/verifier-circuit:second-compilation-failed".into(),
+                    msg: e,
+                };
+                return rep;
+            }
+        }
+    }
+    rep.class("outcome:three-compilations-equal")
+}
+
+fn vc_strategy() -> impl Strategy<Value = VCase> {
+    (crate::checks::c14::shape_strategy(), any::<u64>(), any::<u64>()).prop_map(|(shape, seed_a, seed_b)| VCase { shape, seed_a, seed_b })
+}
+
 pub fn run(ctx: &Ctx) {
     ctx.assume("hash seeds and thread interleavings are sampled by the runtime, not controlled");
     ctx.assume("proof bytes are not compared (parallel proof-of-work grinding may return any valid witness); the property names the operation list, numbering, preprocessed columns, table order and preprocessed commitment");
@@ -464,4 +520,6 @@ pub fn run(ctx: &Ctx) {
     ctx.explore("processes", RULE, n2, || strategy(true, 16), oracle);
     let n3 = ctx.tier.pick(600, 20_000);
     ctx.explore("two-perm-tables", RULE_TABLES, n3, tables_strategy, oracle_tables);
+    let n4 = ctx.tier.pick(160, 6000);
+    ctx.explore("verifier-circuits", RULE_VC, n4, vc_strategy, oracle_vc);
 }
